@@ -354,7 +354,7 @@ def rest_rules(ctx):
     reuse(ctx, lambda c: _c04.run(c, shared=False), ("C04.deriv", "C04.anti", "C04.wrap"), "C10jac", "log-Jacobian rules shared with C04: the log-proposal stored with a draw is the flow's latent density plus the "
           "data transform's log-Jacobian at that draw; a bounded transform whose reported log-Jacobian is not the log-derivative of its map makes the stored log_q differ from the proposal "
           "evaluated at the stored coordinates")
-    reuse(ctx, lambda c: c14.run(c, shared=False), ("C14.flow",), "C10file", "stale-flow rule shared with C14: after a resume log_q is recomputed with the flow stored in the file")
+    reuse(ctx, lambda c: c14.run(c, shared=False), ("C14.flow",), "C10file", "stale-flow rule shared with C14: after a resume log_q is recomputed with the flow stored in the file", only=lambda f: not f.key.endswith("| window"))
 
     # ------------------------------------------------------------ who may write x
     bad = []
